@@ -545,6 +545,28 @@ impl Pool {
     }
 }
 
+/// Verification hooks: open the lease store at a caller-chosen path, and move every stored
+/// timestamp into the past (equivalent to the clock advancing, since every comparison in this
+/// file is relative to the current time).
+#[cfg(feature = "verif-hooks")]
+impl Pool {
+    pub fn verif_open(path: &std::path::Path) -> Result<Pool, Error> {
+        let conn = rusqlite::Connection::open(path)
+            .map_err(|e| Error::emit("Creating database at verification path", &e))?;
+
+        Self::new_with_conn(conn)
+    }
+
+    pub fn verif_shift_clock(&mut self, secs: i64) -> Result<usize, Error> {
+        self.conn
+            .execute(
+                "UPDATE leases SET start = start - ?1, expiry = expiry - ?1",
+                rusqlite::params![secs],
+            )
+            .map_err(|e| Error::emit("Shifting lease timestamps", &e))
+    }
+}
+
 fn map_no_row_to_none<T>(e: rusqlite::Error) -> Result<Option<T>, Error> {
     if e == rusqlite::Error::QueryReturnedNoRows {
         Ok(None)
